@@ -55,6 +55,12 @@ PROPS = {
         families=[("core", NONE, 150), ("time", NONE, 100)],
         projection="C02", monitors=["C02"],
     ),
+    "C08": dict(
+        props_file="Props/C08.v",
+        families=[("core", NONE, 200), ("fault", NONE, 100)],
+        projection="C08", monitors=["C08"],
+        level_note="The order theorem is about the mailbox as polled in the same pass; a message arriving between the mailbox poll and the on_run poll of one pass on a multi-thread runtime is outside the model (partial). Trusted base as for the other checks.",
+    ),
     "C09": dict(
         props_file="Props/C09.v",
         families=[("core", NONE, 150), ("time", NONE, 100), ("hostile", NONE, 50)],
